@@ -355,3 +355,57 @@ func init() {
 		}
 	})
 }
+
+func init() {
+	// the constant a function references is edited through every integer width class of the codec, incl. values that
+	// share their low byte(s) with the previous one: each edit must re-execute the target and its dependent
+	engScenarios = append(engScenarios, func(r *engRun) {
+		s := r.mkSource("")
+		a := r.mkTarget("", nil, []int{s}, 1, false, 0)
+		b := r.mkTarget("", []int{a.ID}, nil, 1, false, 3)
+		r.emitProj("scenario: a referenced constant across the codec's integer width classes")
+		r.build(b.ID, "build", nil, "", "scenario")
+		for _, k := range []int{1, 255, 256, 300, 556, 812, 65535, 65536, 65580, 65836, 131116, 70000, 16777216 + 70000, 1 << 31, (1 << 31) + 256, 1 << 40} {
+			for _, t := range []*engTarget{a, b} {
+				old := t.K
+				t.K = k + t.ID
+				r.emitProj(fmt.Sprintf("constant of %d: %d -> %d", t.ID, old, t.K))
+				o := r.build(b.ID, "build", nil, "", "after the constant edit")
+				if o.Kind == "build" && o.OK {
+					r.checkClean(b.ID)
+				}
+			}
+		}
+	})
+}
+
+func init() {
+	// a collection with several collectable items in each state directory: the records of two removed targets, the record
+	// of a removed source, and the temporaries of two killed builds
+	engScenarios = append(engScenarios, func(r *engRun) {
+		s1, s2 := r.mkSource(""), r.mkSource("")
+		a := r.mkTarget("", nil, []int{s1}, 1, false, 0)
+		x := r.mkTarget("", nil, []int{s2}, 1, false, 0)
+		y := r.mkTarget("", []int{x.ID}, nil, 1, false, 1)
+		top := r.mkTarget("", []int{a.ID, y.ID}, nil, 1, false, 0)
+		r.emitProj("scenario: a collection with several collectable items per directory")
+		r.build(top.ID, "build", nil, "", "scenario")
+		for i := 0; i < 2; i++ {
+			r.editSource(s1)
+			r.editSource(s2)
+			r.build(top.ID, "build", nil, "save.written|*|"+strconv.Itoa(5+i), "killed while a record was being written")
+		}
+		delete(r.p.Targets, x.ID)
+		delete(r.p.Targets, y.ID)
+		top.Deps = []int{a.ID}
+		delete(r.p.Sources, s2)
+		r.emitProj("remove two targets and a source")
+		r.gc(false)
+		o := r.build(top.ID, "build", nil, "", "after the collection")
+		if o.Kind == "build" && o.OK {
+			r.checkClean(top.ID)
+		}
+		r.gc(true)
+		r.build(top.ID, "build", nil, "", "after an index-preferring collection")
+	})
+}
